@@ -2,7 +2,7 @@
    Only statements, each closed by [exact], each followed by Print Assumptions. *)
 From Coq Require Import List ZArith NArith Bool.
 Import ListNotations.
-From GMS Require Import Phys.C07HashKey Phys.C07HashKeyProofs.
+From GMS Require Import Phys.C07HashKey Phys.C07HashKeyProofs Phys.C07Ops Phys.C07RowKeyProofs Phys.C07OpsProofs.
 
 (* integers: the canonical key bytes (strconv.FormatInt) coincide exactly when '=' is TRUE *)
 Theorem C07_key_eq_iff_equal_int :
@@ -92,3 +92,189 @@ Example C07_nonvacuous :
   dedup (key1 w CNone) bytes_eqb [HInt 1; HInt 2; HInt 1; HInt (-2); HInt 2] = [HInt 1; HInt 2; HInt (-2)] /\
   dedup (key1 w CNone) bytes_eqb [HDec 100 2; HDec 10000 4; HDec 100 2] = [HDec 100 2; HDec 10000 4].
 Proof. vm_compute. split; reflexivity. Qed.
+
+(* ---------- rows ---------- *)
+(* HashOf row keys (NUL between values, NULL as "<nil>") are injective on '='-classes inside the fragment rows_ok:
+   numbers / NULL without a string schema, decimals of one scale per column, raw strings without a NUL byte, different
+   from "<nil>" and alone in their collation class, strings under a string schema with rune weights < 2^24 whose low
+   byte is not zero.  Without the guard: C07_row_key_separator_refuted above. *)
+Theorem C07_row_key_injective_on_classes :
+  forall (w : N -> N), (forall c, (w c < 4294967296)%N) ->
+  forall r1 r2 sch, rows_ok w sch r1 r2 -> (row_key w sch r1 = row_key w sch r2 <-> rows_eqb w r1 r2 = true).
+Proof. exact row_key_injective_on_classes. Qed.
+Print Assumptions C07_row_key_injective_on_classes.
+
+Example C07_row_fragment_nonvacuous :
+  rows_ok (fun c => c) [] [HInt 1; HStr [97%N]; HNull] [HInt 1; HStr [97%N]; HNull].
+Proof. exact rows_ok_example. Qed.
+
+(* ---------- hash.HashOfSimple (HashInTuple, single-key HashLookup) ---------- *)
+Theorem C07_simple_key_eq_iff_equal_int :
+  forall (w : N -> N) x y,
+    simple_key w TInt (HInt x) = simple_key w TInt (HInt y) <-> sql_eq w (HInt x) (HInt y) = true.
+Proof. exact simple_key_int_iff. Qed.
+Print Assumptions C07_simple_key_eq_iff_equal_int.
+
+(* integers under a DECIMAL(65,sc) compare type, inside the bound 10^(65-sc) of that type *)
+Theorem C07_simple_key_eq_iff_equal_int_as_decimal :
+  forall (w : N -> N) sc x y,
+    (Z.to_N (Z.abs x) < 10 ^ (65 - sc))%N -> (Z.to_N (Z.abs y) < 10 ^ (65 - sc))%N ->
+    (simple_key w (TDec sc) (HInt x) = simple_key w (TDec sc) (HInt y) <-> sql_eq w (HInt x) (HInt y) = true).
+Proof. exact simple_key_int_as_decimal_iff. Qed.
+Print Assumptions C07_simple_key_eq_iff_equal_int_as_decimal.
+
+Theorem C07_simple_key_eq_iff_equal_collated_string :
+  forall (w : N -> N), (forall c, (w c < 4294967296)%N) -> forall a b,
+    simple_key w TText (HStr a) = simple_key w TText (HStr b) <-> sql_eq w (HStr a) (HStr b) = true.
+Proof. exact simple_key_text_iff. Qed.
+Print Assumptions C07_simple_key_eq_iff_equal_collated_string.
+
+(* decimals of arbitrary scale: only instances are proved (the general statement "trimmed keys are equal iff the numbers
+   are" is NOT proved; it is tied to the code by the correspondence on generated pairs) *)
+Theorem C07_simple_key_decimal_collapse_partial :
+  forall (w : N -> N),
+    simple_key w (TDec 30) (HDec 100 2) = simple_key w (TDec 30) (HDec 10000 4) /\
+    simple_key w (TDec 30) (HInt 1) = simple_key w (TDec 30) (HDec 100 2) /\
+    simple_key w (TDec 30) (HDec 0 2) = simple_key w (TDec 30) (HInt 0) /\
+    simple_key w (TDec 30) (HDec 150 2) <> simple_key w (TDec 30) (HDec 15 2).
+Proof. exact simple_key_collapses. Qed.
+Print Assumptions C07_simple_key_decimal_collapse_partial.
+
+(* beyond the bound of DECIMAL(65,30) the value is replaced by 0 before hashing: 10^36 and 0 share a key *)
+Theorem C07_simple_key_overflow_refuted :
+  forall (w : N -> N), exists a b, sql_eq w a b = false /\ simple_key w (TDec 30) a = simple_key w (TDec 30) b.
+Proof. exact simple_key_overflow_refuted. Qed.
+Print Assumptions C07_simple_key_overflow_refuted.
+
+(* a compare type with fewer fraction digits than the values rounds them; -0.004 at scale 2 is hashed as "-0" *)
+Theorem C07_simple_key_rounding_refuted :
+  forall (w : N -> N),
+    (exists a b, sql_eq w a b = false /\ simple_key w (TDec 1) a = simple_key w (TDec 1) b) /\
+    simple_key w (TDec 2) (HDec (-4) 3) = Some [45; 48]%N /\ simple_key w (TDec 2) (HDec 0 2) = Some [48]%N.
+Proof. exact simple_key_rounding_refuted. Qed.
+Print Assumptions C07_simple_key_rounding_refuted.
+
+(* ---------- operators ---------- *)
+(* IntersectIter (INTERSECT ALL): per class, min of the two multiplicities, whenever on the rows in play the class
+   relation is key equality *)
+Theorem C07_intersect_all_is_min :
+  forall (A K : Type) (key : A -> K) (keq : K -> K -> bool), (forall a b, keq a b = true <-> a = b) ->
+  forall (eqv : A -> A -> bool) (ls rs : list A),
+    (forall x y, In x (ls ++ rs) -> In y (ls ++ rs) -> (eqv x y = true <-> key x = key y)) ->
+    forall a, In a (ls ++ rs) ->
+      ccount eqv a (intersect_all key keq ls rs) = Nat.min (ccount eqv a ls) (ccount eqv a rs).
+Proof. intros A K key keq Hk eqv ls rs H a Ha. exact (intersect_all_is_min key keq Hk eqv ls rs H a Ha). Qed.
+Print Assumptions C07_intersect_all_is_min.
+
+(* ExceptIter as written, per key: the nil row hashed at end of input counts as one more right row *)
+Theorem C07_except_all_count_as_written :
+  forall (A K : Type) (key : A -> K) (keq : K -> K -> bool), (forall a b, keq a b = true <-> a = b) ->
+  forall knil ls rs k,
+    kcount key keq k (except_all key keq knil ls rs) =
+    (kcount key keq k ls - (kcount key keq k rs + (if keq knil k then 1 else 0)))%nat.
+Proof. intros A K key keq Hk knil ls rs k. exact (except_all_count key keq Hk knil ls rs k). Qed.
+Print Assumptions C07_except_all_count_as_written.
+
+(* EXCEPT ALL: per class, left minus right (monus), provided no left row has the key of the nil row *)
+Theorem C07_except_all_is_monus :
+  forall (A K : Type) (key : A -> K) (keq : K -> K -> bool), (forall a b, keq a b = true <-> a = b) ->
+  forall (eqv : A -> A -> bool) (ls rs : list A),
+    (forall x y, In x (ls ++ rs) -> In y (ls ++ rs) -> (eqv x y = true <-> key x = key y)) ->
+    forall knil a, In a (ls ++ rs) -> (forall x, In x ls -> key x <> knil) ->
+      ccount eqv a (except_all key keq knil ls rs) = (ccount eqv a ls - ccount eqv a rs)%nat.
+Proof. intros A K key keq Hk eqv ls rs H knil a Ha Hn. exact (except_all_is_monus key keq Hk eqv ls rs H knil a Ha Hn). Qed.
+Print Assumptions C07_except_all_is_monus.
+
+(* distinctIter: per key at most one row, and one iff the key occurs *)
+Theorem C07_distinct_count :
+  forall (A K : Type) (key : A -> K) (keq : K -> K -> bool), (forall a b, keq a b = true <-> a = b) ->
+  forall l k, kcount key keq k (dedup key keq l) = Nat.min 1 (kcount key keq k l).
+Proof. intros A K key keq Hk l k. exact (dedup_count key keq Hk l k). Qed.
+Print Assumptions C07_distinct_count.
+
+(* UNION: every class of the two inputs exactly once *)
+Theorem C07_union_distinct_once :
+  forall (A K : Type) (key : A -> K) (keq : K -> K -> bool), (forall a b, keq a b = true <-> a = b) ->
+  forall (eqv : A -> A -> bool) (ls rs : list A),
+    (forall x y, In x (ls ++ rs) -> In y (ls ++ rs) -> (eqv x y = true <-> key x = key y)) ->
+    forall a, In a (ls ++ rs) -> ccount eqv a (union_distinct key keq ls rs) = 1%nat.
+Proof. intros A K key keq Hk eqv ls rs H a Ha. exact (union_distinct_once key keq Hk eqv ls rs H a Ha). Qed.
+Print Assumptions C07_union_distinct_once.
+
+(* INTERSECT (distinctIter above IntersectIter): once iff the class occurs on both sides *)
+Theorem C07_intersect_distinct_def :
+  forall (A K : Type) (key : A -> K) (keq : K -> K -> bool), (forall a b, keq a b = true <-> a = b) ->
+  forall (eqv : A -> A -> bool) (ls rs : list A),
+    (forall x y, In x (ls ++ rs) -> In y (ls ++ rs) -> (eqv x y = true <-> key x = key y)) ->
+    forall a, In a (ls ++ rs) ->
+      ccount eqv a (intersect_distinct key keq ls rs) = Nat.min 1 (Nat.min (ccount eqv a ls) (ccount eqv a rs)).
+Proof. intros A K key keq Hk eqv ls rs H a Ha. exact (intersect_distinct_def key keq Hk eqv ls rs H a Ha). Qed.
+Print Assumptions C07_intersect_distinct_def.
+
+(* EXCEPT (distinctIter under both inputs of ExceptIter): once iff the class occurs left and not right *)
+Theorem C07_except_distinct_def :
+  forall (A K : Type) (key : A -> K) (keq : K -> K -> bool), (forall a b, keq a b = true <-> a = b) ->
+  forall (eqv : A -> A -> bool) (ls rs : list A),
+    (forall x y, In x (ls ++ rs) -> In y (ls ++ rs) -> (eqv x y = true <-> key x = key y)) ->
+    forall knil a, In a (ls ++ rs) -> (forall x, In x ls -> key x <> knil) ->
+      ccount eqv a (except_distinct key keq knil ls rs) = (Nat.min 1 (ccount eqv a ls) - Nat.min 1 (ccount eqv a rs))%nat.
+Proof. intros A K key keq Hk eqv ls rs H knil a Ha Hn. exact (except_distinct_def key keq Hk eqv ls rs H knil a Ha Hn). Qed.
+Print Assumptions C07_except_distinct_def.
+
+(* the same over SQL rows with the HashOf key, the guard being the row fragment above *)
+Theorem C07_intersect_all_rows_is_min :
+  forall (w : N -> N) sch ls rs a, (forall c, (w c < 4294967296)%N) ->
+    (forall x y, In x (ls ++ rs) -> In y (ls ++ rs) -> rows_ok w sch x y) -> In a (ls ++ rs) ->
+    ccount (rows_eqb w) a (intersect_all (row_key w sch) bytes_eqb ls rs) =
+    Nat.min (ccount (rows_eqb w) a ls) (ccount (rows_eqb w) a rs).
+Proof. exact intersect_all_rows_is_min. Qed.
+Print Assumptions C07_intersect_all_rows_is_min.
+
+Theorem C07_except_all_rows_is_monus :
+  forall (w : N -> N) sch ls rs a, (forall c, (w c < 4294967296)%N) ->
+    (forall x y, In x (ls ++ rs) -> In y (ls ++ rs) -> rows_ok w sch x y) -> In a (ls ++ rs) ->
+    (forall x, In x ls -> row_key w sch x <> row_key w sch []) ->
+    ccount (rows_eqb w) a (except_all (row_key w sch) bytes_eqb (row_key w sch []) ls rs) =
+    (ccount (rows_eqb w) a ls - ccount (rows_eqb w) a rs)%nat.
+Proof. exact except_all_rows_is_monus. Qed.
+Print Assumptions C07_except_all_rows_is_monus.
+
+(* EXCEPT as written: SELECT '' EXCEPT SELECT 'a' is empty *)
+Theorem C07_except_empty_string_refuted :
+  let key := row_key (fun c => c) [] in
+  exists ls rs, (forall l r, In l ls -> In r rs -> key l <> key r) /\ ls <> [] /\
+    except_all key bytes_eqb (key []) ls rs = [] /\ except_distinct key bytes_eqb (key []) ls rs = [].
+Proof. exact except_empty_string_refuted. Qed.
+Print Assumptions C07_except_empty_string_refuted.
+
+(* COUNT(DISTINCT s, u) as written: ('a,','b') and ('a',',b') are counted once *)
+Theorem C07_count_distinct_comma_refuted :
+  exists r1 r2, r1 <> r2 /\ count_distinct [r1; r2] = 1%nat.
+Proof. exact count_distinct_comma_refuted. Qed.
+Print Assumptions C07_count_distinct_comma_refuted.
+
+(* HashLookup: the hash join equals the join whenever rows satisfying the condition have equal keys; every emitted
+   pair satisfies the condition, so a NULL key (condition never TRUE) never matches *)
+Theorem C07_hash_join_is_join :
+  forall (L R K : Type) (lkey : L -> K) (rkey : R -> K) (keq : K -> K -> bool) (cond : L -> R -> bool),
+    (forall a b, keq a b = true <-> a = b) -> forall ls rs,
+    (forall l r, In l ls -> In r rs -> cond l r = true -> lkey l = rkey r) ->
+    hash_join lkey rkey keq cond ls rs = nl_join cond ls rs.
+Proof. intros L R K lkey rkey keq cond Hk ls rs H. exact (hash_join_is_join lkey rkey keq cond Hk ls rs H). Qed.
+Print Assumptions C07_hash_join_is_join.
+
+Theorem C07_hash_join_null_never_matches :
+  forall (L R K : Type) (lkey : L -> K) (rkey : R -> K) (keq : K -> K -> bool) (cond : L -> R -> bool),
+    (forall a b, keq a b = true <-> a = b) -> forall ls rs l r,
+    In (l, r) (hash_join lkey rkey keq cond ls rs) -> In l ls /\ In r rs /\ cond l r = true.
+Proof. intros L R K lkey rkey keq cond Hk ls rs l r H. exact (hash_join_sound lkey rkey keq cond Hk ls rs l r H). Qed.
+Print Assumptions C07_hash_join_null_never_matches.
+
+(* HashInTuple: x IN (list) by definition, whenever simple-key equality is '=' on the values in play *)
+Theorem C07_hash_in_is_in :
+  forall (skey : hv -> option (list N)) (eqb : hv -> hv -> bool) l rs,
+    (forall v, skey v = None <-> is_null v = true) ->
+    (forall r k k', In r rs -> skey l = Some k -> skey r = Some k' -> bytes_eqb k k' = eqb l r) ->
+    hash_in skey l rs = in_def eqb l rs.
+Proof. exact hash_in_is_in. Qed.
+Print Assumptions C07_hash_in_is_in.
